@@ -549,14 +549,23 @@ def _stat(p):
     return {"ino": st.st_ino, "mtime_ns": st.st_mtime_ns, "mode": st.st_mode, "size": st.st_size, "sha": hashlib.sha256(data).hexdigest()}
 
 
-def _apply(p, style, fix, conf_dicts=()):
+def _apply(p, style, fix, conf_dicts=(), fix_only=None):
     """one real apply_rules.apply_rules call; returns (had_violations or None, updates, changed, fixv, exception)"""
     from vsg import apply_rules
 
     import vsgrun
 
     _install_spies()
-    cla, conf = vsgrun.make_config(style=style, conf_dicts=conf_dicts, fix=fix, filename=[p])
+    fo_path = None
+    if fix_only is not None:
+        fo_path = p + ".fixonly.json"
+        with open(fo_path, "w") as f:
+            json.dump(fix_only, f)
+    try:
+        cla, conf = vsgrun.make_config(style=style, conf_dicts=conf_dicts, fix=fix, filename=[p], fix_only=fo_path)
+    finally:
+        if fo_path:
+            os.remove(fo_path)
     for k in ("rl", "updates", "changed", "fixv", "noop_rules"):
         _SPY.pop(k, None)
     exc = None
@@ -594,6 +603,19 @@ def nowrite_job(job):
         out["runs"].append({"fix": False, "untouched": s0 == s1 and ls == ["t.vhd"]})
         if s0 != s1 or ls != ["t.vhd"]:
             out["fails"].append({"site": "apply_rules.apply_rules", "kind": "modifiedWithoutFix", "detail": {"before": s0, "after": s1, "listing": ls, "exc": exc}, "replay": replay})
+        # (a') --fix with a --fix_only selection that selects nothing that is there: no _fix_violation may
+        # run and the file must stay untouched (write iff a fix was applied)
+        if not job.get("cli"):
+            for fo in ({"fix": {"rule": {}}}, {"fix": {"rule": {"entity_004": [99999], "architecture_004": [99998]}}}):
+                sb = _stat(p)
+                had, upd, chg, fixv, rules, exc = _apply(p, job["style"], True, fix_only=fo)
+                sa = _stat(p)
+                out.setdefault("fix_only_runs", []).append({"had_violations": had, "fixv": fixv, "untouched": sb == sa})
+                if had is None:
+                    break
+                if fixv == 0 and sb != sa:
+                    out["fails"].append({"site": "rule.Rule.fix", "kind": "rewrittenWithoutFixedViolation", "detail": {"fix_only": fo, "fix_violation_calls": fixv, "had_violations": had, "same_bytes": sb["sha"] == sa["sha"], "inode": [sb["ino"], sa["ino"]]}, "replay": dict(replay, fix_only=fo)})
+                    break
         # (b)/(c) with --fix, repeated until a run has no violation to fix (at most 4 runs)
         for k in range(4):
             sb = _stat(p)
